@@ -74,7 +74,7 @@ kinds! {
 /// | SwapW | wcell | weak (in/out) | | |
 /// | CasW | wcell | expected wsnap | desired weak (in/out) | weak? |
 /// | CasTagW | wcell | expected wsnap | tag index | |
-/// | Defer | guard | closure shape | | |
+/// | Defer | guard | closure shape | chain (the function defers a child when it runs) | |
 /// | TryAdvance/Collect | guard | | | |
 /// | Signal/Await | k | | | |
 ///
